@@ -94,7 +94,7 @@ From Verif Require Import Facts_lexer LexBase LexCodeM LexerM LexTables RefTok E
    evaluated by the extracted model on every correspondence input (ctxsim). *)
 Definition lexer_ctx_sim_statement : Prop := forall src : bytes, ctx_sim_ok src = true.
 
-(* This first statement is FALSE: three gaps of the reference fragment, each
+(* This first statement is FALSE: four gaps of the reference fragment, each
    with a witness on which the lexer is right and the reference is not a
    description of what a browser does any more:
    - a show whose body holds a general comment with the closing braces inside
@@ -103,7 +103,8 @@ Definition lexer_ctx_sim_statement : Prop := forall src : bytes, ctx_sim_ok src 
      reference skips to the greater-than sign without recording it),
    - a backslash in front of an end tag inside a string literal of a script
      (the reference takes it for an escape of the less-than sign; a browser
-     ends the element).
+     ends the element),
+   - a show inside a shebang line (the lexer takes the line for one token).
    None of them is a defect of the lexer; the corrected fragment is
    RefTok2.opt_strict. *)
 From Verif Require Import RefTok2.
@@ -116,15 +117,48 @@ Theorem C06_lexer_ctx_sim_refuted_end_tag : ctx_sim_ok sim_w2 = false.
 Proof. vm_compute. reflexivity. Qed.
 Theorem C06_lexer_ctx_sim_refuted_backslash : ctx_sim_ok sim_w3 = false.
 Proof. vm_compute. reflexivity. Qed.
+(* a show inside a shebang line, which the lexer takes for one token *)
+Definition sim_w4 : bytes := [35;33;123;123;32;115;32;125;125].
+Theorem C06_lexer_ctx_sim_refuted_shebang : ctx_sim_ok sim_w4 = false.
+Proof. vm_compute. reflexivity. Qed.
 
-(* The corrected statement of layer (B): the same with the three gaps closed
+(* The corrected statement of layer (B): the same with the four gaps closed
    (the witnesses are outside the fragment).  Stated, evaluated by the
    extracted model on every correspondence input (ctxsim2), not proved in
    full: see C06_lexer_ctx_sim_html_partial below. *)
 Definition lexer_ctx_sim_strict_statement : Prop := forall src : bytes, ctx_sim_ok2 opt_strict src = true.
 Example C06_strict_witnesses_outside :
-  map (ref_contexts2 opt_strict) [sim_w1; sim_w2; sim_w3] = [None; None; None].
+  map (ref_contexts2 opt_strict) [sim_w1; sim_w2; sim_w3; sim_w4] = [None; None; None; None].
 Proof. vm_compute. reflexivity. Qed.
+
+(* Proved: the corrected statement on the sub-fragment opt_html of
+   opt_strict - text, tags with double or single quoted attributes (names of
+   letters and hyphens, spaces around the equals sign, URL attributes
+   included), shows of the form "{{" spaces identifier spaces "}}" in text and
+   inside quoted attribute values; script and style elements, unquoted
+   attributes, comments, CDATA sections and end tags are outside it.  For
+   every source made of bytes: whenever the reference tokenizer stays inside
+   this sub-fragment, the lexer model (scan_template with the Unicode tables
+   of Go, format HTML) sends a show token at every show the reference meets,
+   at the same offset and with the context that abstracts the state of the
+   reference there (ctx_of), or rejects the template with a lexer error.  The
+   proof is a simulation between the main loop of the lexer (scan, scanTag,
+   scanAttribute, the tag and attribute contexts, lexShow and lexCode on the
+   body of the show) and the byte-by-byte reference (proofs/LexSim_proofs.v). *)
+From Verif Require Import LexSim_proofs.
+Definition lexer_ctx_sim_html_statement : Prop :=
+  forall src : bytes, is_bytes src = true -> ctx_sim_ok2 opt_html src = true.
+Theorem C06_lexer_ctx_sim_html_partial : lexer_ctx_sim_html_statement.
+Proof. exact lexer_ctx_sim_html. Qed.
+Print Assumptions C06_lexer_ctx_sim_html_partial.
+
+(* non-vacuity: a source of the sub-fragment with a show in a quoted attribute value and one in text,
+   <p title="{{ s }}">x{{ s }} *)
+Example C06_lexer_ctx_sim_html_example :
+  is_bytes [60;112;32;116;105;116;108;101;61;34;123;123;32;115;32;125;125;34;62;120;123;123;32;115;32;125;125] = true /\
+  ref_contexts2 opt_html [60;112;32;116;105;116;108;101;61;34;123;123;32;115;32;125;125;34;62;120;123;123;32;115;32;125;125]
+    = Some [(10, gen_ContextQuotedAttr); (20, gen_ContextHTML)].
+Proof. vm_compute. split; reflexivity. Qed.
 
 (* proved sub-lemmas, over the generated facts of isEndScript / isEndStyle:
    the end tag test of the lexer accepts exactly "</", the element name in any
